@@ -251,13 +251,62 @@ class PredEval:
         var = params[0][0]
         self._cache[name] = None  # recursion guard
         res = set()
+        try:
+            for op in self.ops:
+                v = self.block(f["body"], {var: ("op", op)})
+                if not isinstance(v, bool):
+                    raise Anchor("predicate %s does not evaluate to a boolean for Op%s: %r" % (name, op, v))
+                if v:
+                    res.add(op)
+        except Anchor:
+            # not one of the directly recognised forms: evaluate the body with the general evaluator, opcode by opcode
+            res = self._by_general_evaluation(f, var, name)
+        self._cache[name] = res
+        return res
+
+    def _by_general_evaluation(self, f, var, name):
+        from .symeval import SymEval, Hooks, Panic as SPanic
+        pe = self
+
+        class PH(Hooks):
+            def path(self, p):
+                o = pe.resolve_op(p)
+                return ("enum", "Op::" + o, []) if o is not None else NotImplemented
+
+            def match_path(self, v, path):
+                o = pe.resolve_op(path)
+                if o is not None and isinstance(v, tuple) and v[0] == "enum":
+                    return v[1] == "Op::" + o
+                return NotImplemented
+
+            def binary(self, op, a, b, e):
+                if op in ("==", "!=") and isinstance(a, tuple) and isinstance(b, tuple) and a and b and a[0] == "enum" and b[0] == "enum":
+                    return (a[1] == b[1]) == (op == "==")
+                return NotImplemented
+
+            def cast(self, v, ty, e):
+                if isinstance(v, tuple) and v and v[0] == "enum" and v[1].startswith("Op::") and ty.replace(" ", "") in ("u32", "u16", "usize", "u64", "i32", "spirv::Word", "Word"):
+                    return pe.ops[v[1][4:]]
+                return NotImplemented
+
+            def call(self, p, args, e):
+                last = p.split("::")[-1]
+                if last in pe.fns and len(args) == 1 and isinstance(args[0], tuple) and args[0][0] == "enum":
+                    s_ = pe.predicate(last)
+                    if s_ is None:
+                        raise Anchor("recursive predicate %s" % last)
+                    return args[0][1][4:] in s_
+                return NotImplemented
+        res = set()
         for op in self.ops:
-            v = self.block(f["body"], {var: ("op", op)})
+            try:
+                v = SymEval(PH(), "predicate " + name).run(f, {var: ("enum", "Op::" + op, [])})
+            except SPanic as x:
+                raise Anchor("predicate %s panics for Op%s: %s" % (name, op, x))
             if not isinstance(v, bool):
                 raise Anchor("predicate %s does not evaluate to a boolean for Op%s: %r" % (name, op, v))
             if v:
                 res.add(op)
-        self._cache[name] = res
         return res
 
     def block(self, b, env):
